@@ -26,11 +26,6 @@ Proof. intros A R S O. unfold sub_taggable. rewrite match_at, A, R, S, O. reflex
 Lemma outline_line_strip kw line alias name : outline_line kw line alias name -> outline_line kw (strip line) alias name.
 Proof. intros [ND NB NC NT NS NR NSc OL]. split; rewrite ?strip_idem; auto using doc_fact_strip. Qed.
 
-Lemma feed_outline_line_clean m f line alias name :
-  m_cont m = CFeat -> m_feat m = Some f -> in_feature_body m -> outline_line (m_kw m) line alias name ->
-  exists m', feed (ROk m) line = ROk m' /\
-             fresh m' (with_items f (FScen (new_outline m alias name) :: f_items f)) (new_outline m alias name) (f_items f) \/ False.
-Proof. Abort.
 
 Lemma feed_outline_line_anywhere m f line alias name :
   m_cont m = CFeat -> m_feat m = Some f -> in_feature_body m -> outline_line (m_kw m) line alias name ->
@@ -218,4 +213,526 @@ Proof.
     exists m2. cbn [fold_left]. rewrite FD1. split; [exact FD2|]. split.
     + cbn [pt_head pt_rows pt_line] in PD2. rewrite app_nil_r in PD2. rewrite L1 in PD2. exact PD2.
     + cbn [length]. repeat split; try congruence. lia.
+Qed.
+
+(* ------------------------------------------------------------------ closing an Examples table *)
+Definition ex_closed_scen (s0 : pscen) (e : pexamples) (r : list pexamples) (t : option ptable) : pscen :=
+  match t with
+  | None => s0
+  | Some t0 => with_examples s0 (mkPEx (pe_kw e) (pe_name e) (pe_line e) (pe_tags e) (Some (table_rows_in_order t0)) :: r)
+  end.
+
+Lemma with_items_same f s rest : f_items f = FScen s :: rest -> with_items f (FScen s :: rest) = f.
+Proof. intros D. destruct f; cbn in *. now rewrite D. Qed.
+
+Lemma ex_close_eq m f s rest e r t :
+  ex_pending m f s rest e r t ->
+  close_table m =
+  upd_table (upd_tree m (Some (with_items f (FScen (ex_closed_scen s e r t) :: rest))) (m_cont m) (m_det_rule m) (m_stmt m) (m_det m))
+            None false.
+Proof.
+  intros (IE & ST & T & W & HS & LN & TG). pose proof (get_stmt_at _ _ _ _ W) as G. destruct W as [A [B [C D]]].
+  unfold close_table. rewrite T. destruct t as [t0|]; cbn [ex_closed_scen].
+  - rewrite IE, G, HS. unfold set_stmt. rewrite A. unfold set_item. rewrite B, C, D.
+    unfold with_examples, with_items. rewrite ?A, ?B. reflexivity.
+  - rewrite (with_items_same f s rest D). unfold upd_table, upd_tree. rewrite C. destruct m; reflexivity.
+Qed.
+
+Lemma ex_pending_line m f s rest e r t n : ex_pending m f s rest e r t -> ex_pending (upd_line m n) f s rest e r t.
+Proof.
+  intros (IE & ST & T & W & HS & LN & TG). destruct W as [A [B [C D]]].
+  unfold ex_pending, at_feature_scenario. cbn. repeat split; auto.
+Qed.
+
+Lemma ex_closes m f s rest e r t line :
+  ex_pending m f s rest e r t ->
+  strip line <> [] -> first_is cp_hash (strip line) = false -> starts_pipe (strip line) = false ->
+  feed (ROk m) line = feed (ROk (upd_st (close_table m) StSteps)) (strip line).
+Proof.
+  intros PD NB NC P. pose proof PD as (IE & ST & T & W & HS & LN & TG).
+  assert (NB2 : strip (strip line) <> []) by (now rewrite strip_idem).
+  assert (NC2 : first_is cp_hash (strip (strip line)) = false) by (now rewrite strip_idem).
+  rewrite (feed_nonblank m line NB). rewrite (action_dispatch _ line NB NC). cbn [upd_line m_st]. rewrite ST.
+  unfold a_table. rewrite match_pipe, P.
+  rewrite (feed_nonblank _ (strip line) NB2). rewrite (action_dispatch _ (strip line) NB2 NC2). cbn [upd_line upd_st m_st].
+  f_equal.
+  rewrite (ex_close_eq _ f s rest e r t (ex_pending_line _ _ _ _ _ _ _ (S (m_line m)) PD)), (ex_close_eq m f s rest e r t PD).
+  reflexivity.
+Qed.
+
+Lemma ex_closed_state m f s rest e r t :
+  ex_pending m f s rest e r t ->
+  let s' := ex_closed_scen s e r t in
+  let m' := upd_st (close_table m) StSteps in
+  m_st m' = StSteps /\ at_feature_scenario m' (with_items f (FScen s' :: rest)) s' rest /\
+  m_table m' = None /\ m_in_examples m' = false /\ m_lines m' = [] /\ m_tags m' = [] /\
+  m_line m' = m_line m /\ m_kw m' = m_kw m /\ m_lang m' = m_lang m.
+Proof.
+  intros PD s' m'. unfold m'. rewrite (ex_close_eq m f s rest e r t PD).
+  destruct PD as (IE & ST & T & W & HS & LN & TG). destruct W as [A [B [C D]]].
+  unfold at_feature_scenario. cbn. repeat split; auto.
+Qed.
+
+(* ------------------------------------------------------------------ inside an outline *)
+(* nothing pending; tags may have been collected for the next Examples block *)
+Definition oready (m : mstate) (f : pfeature) (s : pscen) (rest : list fitem) : Prop :=
+  m_in_examples m = false /\ m_lines m = [] /\ m_table m = None /\
+  (m_st m = StSteps \/ m_st m = StScenario \/ m_st m = StTaggable) /\ at_feature_scenario m f s rest.
+
+(* (f, s): the feature and its newest scenario once whatever is pending has been closed *)
+Definition oview (m : mstate) (f : pfeature) (s : pscen) (rest : list fitem) : Prop :=
+  oready m f s rest \/
+  (m_tags m = [] /\ exists f0 s0 st r t, pending m f0 s0 rest st r t /\
+     s = with_steps s0 (with_table st (table_rows_in_order t) :: r) /\ f = with_items f0 (FScen s :: rest)) \/
+  (exists f0 s0 e r t, ex_pending m f0 s0 rest e r t /\ s = ex_closed_scen s0 e r t /\ f = with_items f0 (FScen s :: rest)).
+
+Lemma settled_oview m f s rest : settled m f s rest -> m_tags m = [] -> oview m f s rest.
+Proof.
+  intros [IE [LN [[T [ST W]] | (f0 & s0 & st & r & t & ST & T & W & HS & ES & EF)]]] TG.
+  - left. split; [exact IE|]. split; [exact LN|]. split; [exact T|]. split; [destruct ST as [X|X]; auto|exact W].
+  - right. left. split; [exact TG|]. exists f0, s0, st, r, t. split; [|split; assumption].
+    split; [exact IE|]. split; [exact ST|]. split; [exact T|]. split; [exact W|]. split; [exact HS|exact LN].
+Qed.
+
+(* a line that is no table row and no doc-string delimiter, arriving while something is pending, closes it
+   first; in every case only the stripped line matters *)
+Lemma oview_reduce m f s rest line :
+  oview m f s rest -> doc_fact line = None ->
+  strip line <> [] -> first_is cp_hash (strip line) = false -> starts_pipe (strip line) = false ->
+  exists mc, feed (ROk m) line = feed (ROk mc) (strip line) /\ oready mc f s rest /\
+             m_tags mc = m_tags m /\ m_line mc = m_line m /\ m_kw mc = m_kw m /\ m_lang mc = m_lang m.
+Proof.
+  intros [OR | [(TG & f0 & s0 & st & r & t & PD & ES & EF) | (f0 & s0 & e & r & t & PD & ES & EF)]] ND NB NC P.
+  - exists m. split; [|split; [exact OR|repeat split; reflexivity]].
+    destruct OR as (IE & LN & T & ST & W).
+    assert (NB2 : strip (strip line) <> []) by (now rewrite strip_idem).
+    assert (NC2 : first_is cp_hash (strip (strip line)) = false) by (now rewrite strip_idem).
+    rewrite (feed_nonblank m line NB), (feed_nonblank m (strip line) NB2).
+    rewrite (action_dispatch _ line NB NC), (action_dispatch _ (strip line) NB2 NC2). cbn [upd_line m_st].
+    destruct ST as [ST|[ST|ST]]; rewrite ST; rewrite ?strip_idem; try reflexivity.
+    unfold a_steps. rewrite strip_idem, ND, (doc_fact_strip _ ND). reflexivity.
+  - destruct PD as (IE & ST & T & W & HS & LN).
+    exists (upd_st (close_table m) StSteps). split; [apply (table_closes m f0 s0 rest st r t line ST W HS T IE NB NC P)|].
+    destruct (closed_state m f0 s0 rest st r t W HS T IE) as (ST1 & W1 & T1 & IE1 & L1 & K1 & TG1 & G1 & _ & LN1).
+    rewrite <- ES in W1. rewrite <- EF in W1.
+    split; [|repeat split; congruence].
+    split; [exact IE1|]. split; [congruence|]. split; [exact T1|]. split; [left; exact ST1|exact W1].
+  - exists (upd_st (close_table m) StSteps). split; [apply (ex_closes m f0 s0 rest e r t line PD NB NC P)|].
+    destruct (ex_closed_state m f0 s0 rest e r t PD) as (ST1 & W1 & T1 & IE1 & LN1 & TG1 & L1 & K1 & G1).
+    destruct PD as (_ & _ & _ & _ & _ & _ & TG).
+    rewrite <- ES in W1. rewrite <- EF in W1.
+    split; [|repeat split; congruence].
+    split; [exact IE1|]. split; [exact LN1|]. split; [exact T1|]. split; [left; exact ST1|exact W1].
+Qed.
+
+(* ------------------------------------------------------------------ tag lines inside an outline *)
+Lemma feed_tag_line_oready m f s rest line names :
+  oready m f s rest -> tag_line (m_kw m) line names ->
+  exists m', feed (ROk m) line = ROk m' /\ oready m' f s rest /\ m_st m' = StTaggable /\
+             m_tags m' = m_tags m ++ map (fun n => (n, S (m_line m))) names /\
+             m_line m' = S (m_line m) /\ m_kw m' = m_kw m /\ m_lang m' = m_lang m.
+Proof.
+  intros (IE & LN & T & ST & W) [ND NB NC AT NS TG].
+  set (m1 := upd_line m (S (m_line m))).
+  assert (RES : forall m0, at_feature_scenario m0 f s rest -> m_line m0 = S (m_line m) -> m_kw m0 = m_kw m ->
+                           m_tags m0 = m_tags m -> m_table m0 = None -> m_in_examples m0 = false -> m_lines m0 = [] -> m_lang m0 = m_lang m ->
+     let mx := upd_st (upd_tags m0 (m_tags m0 ++ map (fun n => (n, m_line m0)) names)) StTaggable in
+     oready mx f s rest /\ m_st mx = StTaggable /\ m_tags mx = m_tags m ++ map (fun n => (n, S (m_line m))) names /\
+     m_line mx = S (m_line m) /\ m_kw mx = m_kw m /\ m_lang mx = m_lang m).
+  { intros m0 W0 L0 K0 T0 B0 I0 N0 G0 mx. destruct W0 as [A [B [C D]]].
+    unfold mx, oready, at_feature_scenario. cbn. rewrite L0, T0. repeat split; auto. }
+  assert (W1 : at_feature_scenario m1 f s rest) by (destruct W as [A [B [C D]]]; unfold at_feature_scenario; cbn; auto).
+  rewrite (feed_nonblank m line NB). fold m1. rewrite (action_dispatch m1 line NB NC). cbn [m1 upd_line m_st].
+  destruct ST as [ST|[ST|ST]]; rewrite ST.
+  - unfold a_steps. rewrite ND. unfold parse_step. cbn [m1 upd_line m_kw]. rewrite NS. cbn [rbind].
+    rewrite (sub_taggable_tags m1 (strip line) _ AT (TG _)). cbn [rbind].
+    eexists. split; [reflexivity|]. apply (RES m1); try reflexivity; assumption.
+  - unfold a_scenario. unfold parse_step. cbn [upd_last m1 upd_line m_kw]. rewrite NS. cbn [rbind].
+    rewrite (sub_taggable_tags (upd_last m1 None) (strip line) _ AT (TG _)). cbn [rbind].
+    eexists. split; [reflexivity|]. apply (RES (upd_last m1 None)); try reflexivity; try assumption.
+  - unfold a_taggable. rewrite (sub_taggable_tags m1 (strip line) _ AT (TG _)). cbn [rbind].
+    eexists. split; [reflexivity|]. apply (RES m1); try reflexivity; assumption.
+Qed.
+
+Lemma oready_oview m f s rest : oready m f s rest -> oview m f s rest.
+Proof. intros H. left. exact H. Qed.
+
+Lemma feed_tag_line_oview m f s rest line names :
+  oview m f s rest -> tag_line (m_kw m) line names ->
+  exists m', feed (ROk m) line = ROk m' /\ oready m' f s rest /\
+             m_tags m' = m_tags m ++ map (fun n => (n, S (m_line m))) names /\
+             m_line m' = S (m_line m) /\ m_kw m' = m_kw m /\ m_lang m' = m_lang m.
+Proof.
+  intros OV TL. pose proof TL as [ND NB NC AT NS TG].
+  destruct (oview_reduce m f s rest line OV ND NB NC (starts_at_not_pipe _ AT)) as (mc & FD & OR & TGc & Lc & Kc & Gc).
+  assert (TLc : tag_line (m_kw mc) (strip line) names) by (rewrite Kc; now apply tag_line_strip).
+  destruct (feed_tag_line_oready mc f s rest (strip line) names OR TLc) as (m' & FD' & OR' & _ & TG' & L' & K' & G').
+  exists m'. rewrite FD. split; [exact FD'|]. split; [exact OR'|]. rewrite TGc, Lc in TG'. rewrite Lc in L'.
+  repeat split; congruence.
+Qed.
+
+Lemma tag_lines_oview tls : forall m f s rest,
+  oview m f s rest -> Forall (fun x => tag_line (m_kw m) (fst x) (snd x)) tls ->
+  exists m', fold_left feed (map fst tls) (ROk m) = ROk m' /\ oview m' f s rest /\
+             m_tags m' = m_tags m ++ tags_of tls (m_line m) /\
+             m_line m' = m_line m + length tls /\ m_kw m' = m_kw m /\ m_lang m' = m_lang m.
+Proof.
+  induction tls as [|[line names] r IH]; intros m f s rest OV OK.
+  - exists m. cbn [map fold_left length tags_of]. rewrite app_nil_r, Nat.add_0_r. split; [reflexivity|]. split; [exact OV|]. repeat split.
+  - inversion OK as [|? ? H1 OK']. subst. cbn [fst snd] in H1.
+    destruct (feed_tag_line_oview m f s rest line names OV H1) as (m1 & FD1 & OR1 & T1 & L1 & K1 & G1).
+    assert (OK1 : Forall (fun x => tag_line (m_kw m1) (fst x) (snd x)) r) by (now rewrite K1).
+    destruct (IH m1 f s rest (oready_oview _ _ _ _ OR1) OK1) as (m' & FD' & OV' & T' & L' & K' & G').
+    exists m'. cbn [map fst fold_left]. rewrite FD1. split; [exact FD'|]. split; [exact OV'|]. repeat split.
+    + rewrite T', T1, L1. cbn [tags_of]. now rewrite <- app_assoc.
+    + rewrite L', L1. cbn [length]. lia.
+    + congruence.
+    + congruence.
+Qed.
+
+(* ------------------------------------------------------------------ one Examples block *)
+Definition exblock : Type := (list (ustr * list ustr) * (ustr * ustr * ustr) * list ustr)%type.
+
+Definition exblock_lines (b : exblock) : list ustr := let '(tls, (line, _, _), rows) := b in map fst tls ++ line :: rows.
+
+Definition exblock_ok (kw : kwtable) (b : exblock) : Prop :=
+  let '(tls, (line, alias, name), rows) := b in
+  Forall (fun y => tag_line kw (fst y) (snd y)) tls /\ examples_line kw line alias name /\ ex_rows_ok rows.
+
+Definition exblock_of (b : exblock) (ln : nat) : pexamples :=
+  let '(tls, (_, alias, name), rows) := b in
+  let l1 := ln + length tls in
+  mkPEx alias name (S l1) (tags_of tls ln) (ex_table rows (S l1)).
+
+Lemma outline_eta s : sc_outline s = true ->
+  mkPScen true (sc_kw s) (sc_name s) (sc_line s) (sc_tags s) (sc_descr s) (sc_steps s) (sc_examples s) = s.
+Proof. intros H. destruct s; cbn in *. now rewrite H. Qed.
+
+Lemma feed_exblock m f s rest b :
+  oview m f s rest -> m_tags m = [] -> sc_outline s = true -> exblock_ok (m_kw m) b ->
+  let s' := with_examples s (exblock_of b (m_line m) :: sc_examples s) in
+  exists m', fold_left feed (exblock_lines b) (ROk m) = ROk m' /\ oview m' (with_items f (FScen s' :: rest)) s' rest /\
+             m_tags m' = [] /\ m_line m' = m_line m + length (exblock_lines b) /\ m_kw m' = m_kw m /\ m_lang m' = m_lang m.
+Proof.
+  destruct b as [[tls [[line alias] name]] rows]. intros OV TG OUT (TL & EL & RS) s'.
+  destruct (tag_lines_oview tls m f s rest OV TL) as (m0 & FD0 & OV0 & T0 & L0 & K0 & G0).
+  pose proof EL as [ND NB NC NT NP NS NR NSc NO EX].
+  destruct (oview_reduce m0 f s rest line OV0 ND NB NC NP) as (mc & FDc & (IEc & LNc & Tc & STc & Wc) & TGc & Lc & Kc & Gc).
+  assert (ELc : examples_line (m_kw mc) (strip line) alias name) by (rewrite Kc, K0; now apply examples_line_strip).
+  destruct (feed_examples_line_clean mc f s rest (strip line) alias name STc Tc IEc LNc Wc OUT ELc) as (m1 & FD1 & PD1 & L1 & K1 & G1).
+  rewrite (outline_eta s OUT) in PD1.
+  destruct (feed_ex_rows rows m1 _ _ rest _ _ PD1 RS) as (m2 & FD2 & PD2 & L2 & K2 & G2).
+  exists m2. cbn [exblock_lines]. rewrite fold_left_app, FD0. cbn [fold_left]. rewrite FDc, FD1. split; [exact FD2|].
+  set (e := mkPEx alias name (S (m_line mc)) (m_tags mc) None) in *.
+  set (s1 := with_examples s (e :: sc_examples s)) in *.
+  split.
+  - right. right. exists (with_items f (FScen s1 :: rest)), s1, e, (sc_examples s), (ex_table_pending rows (m_line m1)).
+    split; [exact PD2|].
+    assert (ES : s' = ex_closed_scen s1 e (sc_examples s) (ex_table_pending rows (m_line m1))).
+    { unfold s', exblock_of, s1, e. rewrite L1, Lc, L0, TGc, T0, TG. cbn [app].
+      destruct rows as [|h body]; cbn [ex_table_pending ex_table ex_closed_scen].
+      - unfold with_examples. cbn. reflexivity.
+      - unfold with_examples, table_rows_in_order. cbn. rewrite rev_involutive. reflexivity. }
+    split; [exact ES|]. unfold with_items. cbn. reflexivity.
+  - destruct PD2 as (_ & _ & _ & _ & _ & _ & TG2).
+    split; [exact TG2|]. split; [|split; congruence].
+    rewrite L2, L1, Lc, L0, app_length, map_length. cbn [length]. unfold ustr in *. lia.
+Qed.
+
+Fixpoint exblocks_of (bs : list exblock) (ln : nat) : list pexamples :=
+  match bs with
+  | [] => []
+  | b :: r => exblock_of b ln :: exblocks_of r (ln + length (exblock_lines b))
+  end.
+
+Lemma exblocks_are_read bs : forall m f s rest,
+  oview m f s rest -> m_tags m = [] -> sc_outline s = true -> Forall (exblock_ok (m_kw m)) bs ->
+  exists m' f' s',
+    fold_left feed (flat_map exblock_lines bs) (ROk m) = ROk m' /\ oview m' f' s' rest /\ m_tags m' = [] /\
+    m_line m' = m_line m + length (flat_map exblock_lines bs) /\ m_kw m' = m_kw m /\ m_lang m' = m_lang m /\
+    s' = with_examples s (rev (exblocks_of bs (m_line m)) ++ sc_examples s) /\ f' = with_items f (FScen s' :: rest).
+Proof.
+  induction bs as [|b bs IH]; intros m f s rest OV TG OUT OK.
+  - exists m, f, s. cbn [flat_map fold_left exblocks_of rev app length]. rewrite Nat.add_0_r.
+    split; [reflexivity|]. split; [exact OV|]. split; [exact TG|]. split; [reflexivity|]. split; [reflexivity|]. split; [reflexivity|].
+    split; [destruct s; reflexivity|].
+    assert (D : f_items f = FScen s :: rest).
+    { destruct OV as [(_ & _ & _ & _ & (_ & _ & _ & D)) | [(_ & f0 & s0 & st & r & t & _ & _ & ->) | (f0 & s0 & e & r & t & _ & _ & ->)]];
+        [exact D|reflexivity|reflexivity]. }
+    symmetry. now apply with_items_same.
+  - inversion OK as [|? ? H1 OK']. subst.
+    destruct (feed_exblock m f s rest b OV TG OUT H1) as (m1 & FD1 & OV1 & TG1 & L1 & K1 & G1).
+    assert (OK1 : Forall (exblock_ok (m_kw m1)) bs) by (now rewrite K1).
+    assert (OUT1 : sc_outline (with_examples s (exblock_of b (m_line m) :: sc_examples s)) = true) by exact OUT.
+    destruct (IH m1 _ _ rest OV1 TG1 OUT1 OK1) as (m' & f' & s' & FD' & OV' & TG' & L' & K' & G' & ES & EF).
+    exists m', f', s'. cbn [flat_map]. rewrite fold_left_app, FD1. split; [exact FD'|]. split; [exact OV'|]. split; [exact TG'|].
+    split; [rewrite L', L1, app_length; unfold ustr in *; lia|].
+    split; [congruence|]. split; [congruence|]. split.
+    + rewrite ES. cbn [exblocks_of rev]. rewrite L1. unfold with_examples. cbn. now rewrite <- app_assoc.
+    + rewrite EF. unfold with_items. cbn. reflexivity.
+Qed.
+
+(* ------------------------------------------------------------------ between the items of a feature *)
+Definition obody (m : mstate) (f : pfeature) : Prop := body m f \/ exists s rest, oview m f s rest.
+
+Lemma oready_body m f s rest : oready m f s rest -> body m f.
+Proof.
+  intros (IE & LN & T & ST & W). split; [exact IE|]. split; [exact LN|]. left. destruct W as [A [B [C D]]].
+  split; [exact T|]. split; [|split; assumption].
+  destruct ST as [X|[X|X]]; [right; left; exact X|right; right; left; exact X|right; right; right; exact X].
+Qed.
+
+Lemma tag_lines_obody tls m f :
+  obody m f -> Forall (fun x => tag_line (m_kw m) (fst x) (snd x)) tls ->
+  exists m', fold_left feed (map fst tls) (ROk m) = ROk m' /\ obody m' f /\
+             m_tags m' = m_tags m ++ tags_of tls (m_line m) /\ m_line m' = m_line m + length tls /\ m_kw m' = m_kw m.
+Proof.
+  intros [B | (s & rest & OV)] TL.
+  - destruct (tag_lines_body tls m f B TL) as (m' & FD & B' & L' & K' & T').
+    exists m'. split; [exact FD|]. split; [left; exact B'|]. repeat split; assumption.
+  - destruct (tag_lines_oview tls m f s rest OV TL) as (m' & FD & OV' & T' & L' & K' & G').
+    exists m'. split; [exact FD|]. split; [right; exists s, rest; exact OV'|]. repeat split; assumption.
+Qed.
+
+Lemma feed_scenario_line_obody m f line alias name :
+  obody m f -> scenario_line (m_kw m) line alias name -> starts_pipe (strip line) = false ->
+  exists m', feed (ROk m) line = ROk m' /\
+             fresh m' (with_items f (FScen (new_scenario m alias name) :: f_items f)) (new_scenario m alias name) (f_items f) /\
+             m_line m' = S (m_line m) /\ m_kw m' = m_kw m /\ m_tags m' = [].
+Proof.
+  intros [B | (s & rest & OV)] SL NP.
+  - now apply feed_scenario_line_fresh.
+  - pose proof SL as [ND NB NC NT NS NR SC].
+    destruct (oview_reduce m f s rest line OV ND NB NC NP) as (mc & FD & OR & TGc & Lc & Kc & Gc).
+    assert (SLc : scenario_line (m_kw mc) (strip line) alias name) by (rewrite Kc; now apply scenario_line_strip).
+    assert (NPc : starts_pipe (strip (strip line)) = false) by (now rewrite strip_idem).
+    destruct (feed_scenario_line_fresh mc f (strip line) alias name (oready_body _ _ _ _ OR) SLc NPc) as (m' & FD' & FR' & L' & K' & T').
+    exists m'. rewrite FD. split; [exact FD'|]. unfold new_scenario in *. rewrite Lc, TGc in FR'. split; [exact FR'|].
+    repeat split; congruence.
+Qed.
+
+Lemma feed_outline_line_obody m f line alias name :
+  obody m f -> m_tags m = m_tags m -> outline_line (m_kw m) line alias name -> starts_pipe (strip line) = false ->
+  exists m', feed (ROk m) line = ROk m' /\
+             fresh m' (with_items f (FScen (new_outline m alias name) :: f_items f)) (new_outline m alias name) (f_items f) /\
+             m_line m' = S (m_line m) /\ m_kw m' = m_kw m /\ m_tags m' = [].
+Proof.
+  intros OB _ OL NP.
+  assert (CLEAN : forall mc, m_in_examples mc = false -> m_lines mc = [] -> m_table mc = None -> in_feature_body mc ->
+                   m_cont mc = CFeat -> m_feat mc = Some f -> m_line mc = m_line m -> m_tags mc = m_tags m -> m_kw mc = m_kw m ->
+                   forall l, outline_line (m_kw mc) l alias name ->
+                   exists m', feed (ROk mc) l = ROk m' /\
+                     fresh m' (with_items f (FScen (new_outline m alias name) :: f_items f)) (new_outline m alias name) (f_items f) /\
+                     m_line m' = S (m_line m) /\ m_kw m' = m_kw m /\ m_tags m' = []).
+  { intros mc IE LN T ST C F Lc TGc Kc l OLc.
+    destruct (feed_outline_line_anywhere mc f l alias name C F ST OLc) as (m' & FD & ST' & W' & L' & K' & TG' & G' & TB' & IE' & LN').
+    exists m'. split; [exact FD|]. unfold new_outline in *. rewrite Lc, TGc in W'. split.
+    - split; [exact ST'|]. split; [congruence|]. split; [congruence|]. split; [congruence|exact W'].
+    - repeat split; congruence. }
+  destruct OB as [[IE [LN [[T [ST [C F]]] | (f0 & s0 & rest & st & r & t & PD & EF)]]] | (s & rest & OV)].
+  - apply (CLEAN m IE LN T ST C F eq_refl eq_refl eq_refl line OL).
+  - destruct PD as (_ & ST & T & W & HS & _). pose proof OL as [ND NB NC NT NS NR NSc OLn].
+    rewrite (table_closes m f0 s0 rest st r t line ST W HS T IE NB NC NP).
+    destruct (closed_state m f0 s0 rest st r t W HS T IE) as (ST1 & W1 & T1 & IE1 & L1 & K1 & TG1 & G1 & _ & LN1).
+    set (m1 := upd_st (close_table m) StSteps) in *.
+    destruct W1 as [A1 [B1 [C1 D1]]].
+    assert (OL1 : outline_line (m_kw m1) (strip line) alias name) by (rewrite K1; now apply outline_line_strip).
+    apply (CLEAN m1); try assumption; try congruence.
+    + right; left; exact ST1.
+    + rewrite C1, EF. reflexivity.
+  - pose proof OL as [ND NB NC NT NS NR NSc OLn].
+    destruct (oview_reduce m f s rest line OV ND NB NC NP) as (mc & FD & OR & TGc & Lc & Kc & Gc).
+    rewrite FD. pose proof (oready_body _ _ _ _ OR) as [IEc [LNc [[Tc [STc [Cc Fc]]] | (f0 & s0 & rest0 & st & r & t & PD & _)]]].
+    + assert (OLc : outline_line (m_kw mc) (strip line) alias name) by (rewrite Kc; now apply outline_line_strip).
+      apply (CLEAN mc); assumption.
+    + destruct OR as (_ & _ & Tc & _). destruct PD as (_ & _ & Tp & _). congruence.
+Qed.
+
+(* ------------------------------------------------------------------ the items of a feature: scenarios and outlines *)
+Definition oscen : Type := (list (ustr * list ustr) * (ustr * ustr * ustr) * list ustr * list xstep * list exblock)%type.
+
+Inductive item := IScen (y : yscen) | IOutline (o : oscen).
+
+Definition item_lines (it : item) : list ustr :=
+  match it with
+  | IScen y => yscen_lines y
+  | IOutline (tls, (line, _, _), ds, steps, blocks) =>
+      map fst tls ++ line :: ds ++ flat_map xstep_lines steps ++ flat_map exblock_lines blocks
+  end.
+
+Definition item_ok (kw : kwtable) (it : item) : Prop :=
+  match it with
+  | IScen y => yscen_ok kw y
+  | IOutline (tls, (line, alias, name), ds, steps, blocks) =>
+      Forall (fun y => tag_line kw (fst y) (snd y)) tls /\ outline_line kw line alias name /\
+      starts_pipe (strip line) = false /\ Forall (descr_line kw) ds /\ Forall (xstep_ok kw) steps /\
+      Forall (exblock_ok kw) blocks
+  end.
+
+Definition expected_item (it : item) (ln : nat) : fitem :=
+  match it with
+  | IScen (tls, (_, alias, name), ds, steps) =>
+      let l1 := ln + length tls in
+      FScen (mkPScen false alias name (S l1) (tags_of tls ln) (map strip ds) (xsteps_of steps (S l1 + length ds)) [])
+  | IOutline (tls, (_, alias, name), ds, steps, blocks) =>
+      let l1 := ln + length tls in
+      let l2 := S l1 + length ds + length (flat_map xstep_lines steps) in
+      FScen (mkPScen true alias name (S l1) (tags_of tls ln) (map strip ds) (xsteps_of steps (S l1 + length ds))
+                     (exblocks_of blocks l2))
+  end.
+
+Fixpoint expected_items (its : list item) (ln : nat) : list fitem :=
+  match its with
+  | [] => []
+  | it :: r => expected_item it ln :: expected_items r (ln + length (item_lines it))
+  end.
+
+Lemma fin_outline_full alias name ln tags ds steps exs :
+  fin_scen (with_examples (with_steps (with_descr (mkPScen true alias name ln tags [] [] []) (rev ds ++ [])) (rev steps ++ []))
+                          (rev exs ++ []))
+  = mkPScen true alias name ln tags ds steps exs.
+Proof. unfold fin_scen, with_steps, with_descr, with_examples. cbn. now rewrite !app_nil_r, !rev_involutive. Qed.
+
+Lemma items_are_read its : forall m f,
+  obody m f -> m_tags m = [] -> Forall (item_ok (m_kw m)) its ->
+  exists m' f',
+    fold_left feed (flat_map item_lines its) (ROk m) = ROk m' /\ obody m' f' /\ m_tags m' = [] /\ m_kw m' = m_kw m /\
+    rev (map fin_item (f_items f')) = rev (map fin_item (f_items f)) ++ expected_items its (m_line m) /\
+    with_items f' [] = with_items f [].
+Proof.
+  induction its as [|it its IH]; intros m f OB T OK.
+  - exists m, f. cbn [flat_map fold_left expected_items]. rewrite app_nil_r.
+    split; [reflexivity|]. split; [exact OB|]. repeat split; auto.
+  - inversion OK as [|? ? H1 OK']. subst.
+    destruct it as [[[[tls [[line alias] name]] ds] steps] | [[[[tls [[line alias] name]] ds] steps] blocks]].
+    + (* a scenario *)
+      destruct H1 as (TL & SL & NP & DL & STP).
+      destruct (tag_lines_obody tls m f OB TL) as (m0 & FD0 & OB0 & T0 & L0 & K0).
+      assert (SL0 : scenario_line (m_kw m0) line alias name) by (now rewrite K0).
+      destruct (feed_scenario_line_obody m0 f line alias name OB0 SL0 NP) as (m1 & FD1 & FR1 & L1 & K1 & T1).
+      assert (DL1 : Forall (descr_line (m_kw m1)) ds) by (now rewrite K1, K0).
+      destruct (descr_lines_are_read ds m1 _ _ (f_items f) FR1 DL1) as (mD & fD & sD & FDD & FRD & LD & KD & TD & ESD & EFD).
+      assert (STP1 : Forall (xstep_ok (m_kw mD)) steps) by (now rewrite KD, K1, K0).
+      destruct (xsteps_are_read steps mD _ _ (f_items f) (fresh_settled _ _ _ _ FRD) STP1)
+        as (m2 & f2 & s2 & FD2 & SE2 & L2 & K2 & T2 & _ & ES & EF).
+      assert (OK2 : Forall (item_ok (m_kw m2)) its) by (rewrite K2, KD, K1, K0; exact OK').
+      assert (T2' : m_tags m2 = []) by congruence.
+      destruct (IH m2 f2 (or_introl (settled_body _ _ _ _ SE2)) T2' OK2) as (m' & f' & FD' & B' & T' & K' & IT' & HD').
+      exists m', f'. cbn [flat_map item_lines yscen_lines]. rewrite !fold_left_app. rewrite FD0. cbn [fold_left]. rewrite FD1.
+      rewrite !fold_left_app. rewrite FDD, FD2.
+      split; [exact FD'|]. split; [exact B'|]. split; [exact T'|]. split; [congruence|]. split.
+      * rewrite IT'. rewrite EF. cbn [with_items f_items map rev fin_item]. rewrite ES, ESD.
+        assert (FS : fin_scen (with_steps (with_descr (new_scenario m0 alias name) (rev (map strip ds) ++ sc_descr (new_scenario m0 alias name)))
+                                          (rev (xsteps_of steps (m_line mD)) ++
+                                           sc_steps (with_descr (new_scenario m0 alias name) (rev (map strip ds) ++ sc_descr (new_scenario m0 alias name))))) =
+                     mkPScen false alias name (S (m_line m + length tls)) (tags_of tls (m_line m)) (map strip ds)
+                             (xsteps_of steps (S (m_line m + length tls) + length ds)) []).
+        { unfold new_scenario. rewrite T0, T. cbn [sc_steps sc_descr with_descr app]. rewrite LD, L1, L0. apply fin_scen_full. }
+        rewrite FS. rewrite <- app_assoc. cbn [app expected_items expected_item]. rewrite L2, LD, L1, L0.
+        do 3 f_equal. cbn [item_lines yscen_lines]. rewrite !app_length, map_length. cbn [length]. rewrite ?app_length. unfold ustr in *. lia.
+      * rewrite HD', EF, EFD. unfold with_items. cbn. reflexivity.
+    + (* an outline *)
+      destruct H1 as (TL & OL & NP & DL & STP & BL).
+      destruct (tag_lines_obody tls m f OB TL) as (m0 & FD0 & OB0 & T0 & L0 & K0).
+      assert (OL0 : outline_line (m_kw m0) line alias name) by (now rewrite K0).
+      destruct (feed_outline_line_obody m0 f line alias name OB0 eq_refl OL0 NP) as (m1 & FD1 & FR1 & L1 & K1 & T1).
+      assert (DL1 : Forall (descr_line (m_kw m1)) ds) by (now rewrite K1, K0).
+      destruct (descr_lines_are_read ds m1 _ _ (f_items f) FR1 DL1) as (mD & fD & sD & FDD & FRD & LD & KD & TD & ESD & EFD).
+      assert (STP1 : Forall (xstep_ok (m_kw mD)) steps) by (now rewrite KD, K1, K0).
+      destruct (xsteps_are_read steps mD _ _ (f_items f) (fresh_settled _ _ _ _ FRD) STP1)
+        as (m2 & f2 & s2 & FD2 & SE2 & L2 & K2 & T2 & _ & ES & EF).
+      assert (T2' : m_tags m2 = []) by congruence.
+      assert (OUT2 : sc_outline s2 = true) by (rewrite ES, ESD; reflexivity).
+      assert (BL2 : Forall (exblock_ok (m_kw m2)) blocks) by (rewrite K2, KD, K1, K0; exact BL).
+      destruct (exblocks_are_read blocks m2 f2 s2 (f_items f) (settled_oview _ _ _ _ SE2 T2') T2' OUT2 BL2)
+        as (m3 & f3 & s3 & FD3 & OV3 & T3 & L3 & K3 & _ & ES3 & EF3).
+      assert (OK3 : Forall (item_ok (m_kw m3)) its) by (rewrite K3, K2, KD, K1, K0; exact OK').
+      destruct (IH m3 f3 (or_intror (ex_intro _ s3 (ex_intro _ (f_items f) OV3))) T3 OK3) as (m' & f' & FD' & B' & T' & K' & IT' & HD').
+      exists m', f'. cbn [flat_map item_lines]. rewrite !fold_left_app. rewrite FD0. cbn [fold_left]. rewrite FD1.
+      rewrite !fold_left_app. rewrite FDD, FD2, FD3.
+      split; [exact FD'|]. split; [exact B'|]. split; [exact T'|]. split; [congruence|]. split.
+      * rewrite IT'. rewrite EF3. cbn [with_items f_items map rev fin_item]. rewrite ES3, ES, ESD.
+        assert (FS : fin_scen (with_examples
+                        (with_steps (with_descr (new_outline m0 alias name) (rev (map strip ds) ++ sc_descr (new_outline m0 alias name)))
+                                    (rev (xsteps_of steps (m_line mD)) ++
+                                     sc_steps (with_descr (new_outline m0 alias name) (rev (map strip ds) ++ sc_descr (new_outline m0 alias name)))))
+                        (rev (exblocks_of blocks (m_line m2)) ++
+                         sc_examples (with_steps (with_descr (new_outline m0 alias name) (rev (map strip ds) ++ sc_descr (new_outline m0 alias name)))
+                                    (rev (xsteps_of steps (m_line mD)) ++
+                                     sc_steps (with_descr (new_outline m0 alias name) (rev (map strip ds) ++ sc_descr (new_outline m0 alias name))))))) =
+                     mkPScen true alias name (S (m_line m + length tls)) (tags_of tls (m_line m)) (map strip ds)
+                             (xsteps_of steps (S (m_line m + length tls) + length ds))
+                             (exblocks_of blocks (S (m_line m + length tls) + length ds + length (flat_map xstep_lines steps)))).
+        { unfold new_outline. rewrite T0, T. cbn [sc_steps sc_descr sc_examples with_descr with_steps app]. rewrite L2, LD, L1, L0. apply fin_outline_full. }
+        rewrite FS. rewrite <- app_assoc. cbn [app expected_items expected_item]. rewrite L3, L2, LD, L1, L0.
+        do 3 f_equal. cbn [item_lines]. rewrite !app_length, map_length. cbn [length]. rewrite ?app_length. unfold ustr in *. lia.
+      * rewrite HD', EF3, EF, EFD. unfold with_items. cbn. reflexivity.
+Qed.
+
+(* ------------------------------------------------------------------ the end of the text *)
+Lemma finish_obody m f :
+  obody m f -> exists m', finish_table (ROk m) = ROk m' /\ m_table m' = None /\ m_feat m' = Some f.
+Proof.
+  unfold finish_table. cbn [rbind].
+  intros [[IE [LN [[T [ST [C F]]] | (f0 & s0 & rest & st & r & t & PD & EF)]]] | (s & rest & OV)].
+  - rewrite T. exists m. auto.
+  - destruct PD as (_ & ST & T & W & HS & _). rewrite T.
+    destruct (closed_state m f0 s0 rest st r t W HS T IE) as (_ & W1 & T1 & _).
+    eexists. split; [reflexivity|]. split; [exact T1|]. destruct W1 as [_ [_ [C1 _]]]. rewrite C1, EF. reflexivity.
+  - destruct OV as [(IE & LN & T & ST & W) | [(TG & f0 & s0 & st & r & t & PD & ES & EF) | (f0 & s0 & e & r & t & PD & ES & EF)]].
+    + rewrite T. exists m. destruct W as [_ [_ [C _]]]. auto.
+    + destruct PD as (IE & ST & T & W & HS & _). rewrite T.
+      destruct (closed_state m f0 s0 rest st r t W HS T IE) as (_ & W1 & T1 & _).
+      eexists. split; [reflexivity|]. split; [exact T1|]. destruct W1 as [_ [_ [C1 _]]]. rewrite C1, EF, ES. reflexivity.
+    + pose proof PD as (IE & ST & T & W & HS & _). destruct t as [t0|].
+      * rewrite T. destruct (ex_closed_state m f0 s0 rest e r (Some t0) PD) as (_ & W1 & T1 & _).
+        eexists. split; [reflexivity|]. split; [exact T1|]. destruct W1 as [_ [_ [C1 _]]]. rewrite C1, EF, ES. reflexivity.
+      * rewrite T. exists m. split; [reflexivity|]. split; [exact T|].
+        destruct W as [_ [_ [C D]]]. rewrite C, EF, ES. cbn [ex_closed_scen]. now rewrite (with_items_same f0 s0 rest D).
+Qed.
+
+(* C04 for features with a description whose items are scenarios and scenario outlines: tags,
+   descriptions, steps with doc-strings and tables, Examples blocks with tags, names and tables *)
+Theorem a_feature_with_outlines_is_read_back_exactly kw code fline falias fname fds its :
+  feature_line kw fline falias fname -> Forall (descr_line kw) fds -> Forall (item_ok kw) its ->
+  exists m',
+    finish_table (fold_left feed (fline :: fds ++ flat_map item_lines its) (ROk (init_state code kw VFeature StInitial))) = ROk m' /\
+    m_table m' = None /\
+    option_map fin_feature (m_feat m') =
+    Some (mkPFeat falias fname 1 [] (map strip fds) None (expected_items its (1 + length fds)) code).
+Proof.
+  intros [NB NC NT FA] FD OK. set (m0 := init_state code kw VFeature StInitial).
+  assert (F0 : feed (ROk m0) fline = ROk (upd_st (build_feature (upd_line m0 1) falias fname) StFeature)).
+  { rewrite (feed_nonblank m0 fline NB). rewrite (action_dispatch _ fline NB NC). cbn [upd_line m_st m0 init_state].
+    unfold a_initial. rewrite match_at, NT. cbn [upd_line m_kw m0 init_state]. now rewrite FA. }
+  set (m1 := upd_st (build_feature (upd_line m0 1) falias fname) StFeature) in *.
+  set (f1 := mkPFeat falias fname 1 [] [] None [] code).
+  destruct (feature_descr_lines_are_read fds m1 f1 eq_refl eq_refl eq_refl eq_refl eq_refl eq_refl FD)
+    as (mD & FDD & STD & TD & IED & LND & CD & FDf & LD & KD & TGD).
+  set (fD := mkPFeat (f_kw f1) (f_name f1) (f_line f1) (f_tags f1) (rev (map strip fds) ++ f_descr f1) (f_bg f1) (f_items f1) (f_lang f1)) in *.
+  assert (BD : obody mD fD).
+  { left. split; [exact IED|]. split; [exact LND|]. left. split; [exact TD|]. split; [left; exact STD|]. split; assumption. }
+  assert (OKD : Forall (item_ok (m_kw mD)) its) by (rewrite KD; exact OK).
+  assert (TGD' : m_tags mD = []) by (rewrite TGD; reflexivity).
+  destruct (items_are_read its mD fD BD TGD' OKD) as (m' & f' & FD' & B' & T' & K' & IT & HD).
+  cbn [fold_left]. rewrite F0. rewrite fold_left_app, FDD, FD'.
+  destruct (finish_obody m' f' B') as (m'' & FIN & TB & FF).
+  exists m''. split; [exact FIN|]. split; [exact TB|]. rewrite FF. cbn [option_map]. f_equal.
+  unfold fin_feature. rewrite IT. rewrite LD.
+  unfold with_items in HD. cbn in HD. inversion HD as [[H1 H2 H3 H4 H5 H6 H7]]. rewrite H1, H2, H3, H4, H5, H6, H7.
+  cbn [fD f1 f_items f_descr map rev app m_line m1 upd_st build_feature upd_tags upd_tree upd_line m0 init_state].
+  rewrite app_nil_r, rev_involutive. reflexivity.
+Qed.
+
+(* non-vacuity: an English outline line, an Examples line and two rows *)
+Example english_outline_lines :
+  outline_line english [32; 32; 83; 99; 101; 110; 97; 114; 105; 111; 32; 79; 117; 116; 108; 105; 110; 101; 58; 32; 79; 32; 60; 120; 62]%N
+               [83; 99; 101; 110; 97; 114; 105; 111; 32; 79; 117; 116; 108; 105; 110; 101]%N [79; 32; 60; 120; 62]%N /\
+  examples_line english [32; 32; 32; 32; 69; 120; 97; 109; 112; 108; 101; 115; 58; 32; 69]%N [69; 120; 97; 109; 112; 108; 101; 115]%N [69%N] /\
+  ex_rows_ok [[32; 32; 124; 32; 120; 32; 124]; [32; 32; 124; 32; 49; 32; 124]]%N.
+Proof.
+  split; [|split].
+  - split; try (vm_compute; congruence); vm_compute; reflexivity.
+  - split; try (vm_compute; congruence); vm_compute; reflexivity.
+  - repeat constructor; try (vm_compute; congruence); vm_compute; reflexivity.
 Qed.
